@@ -39,7 +39,27 @@ def main():
                     jobs.append((rng.randrange(1 << 30), rng.choice(("LP", "LM", "LF", "LC")), p, "mutant-" + kind))
             for f in sorted(rng.sample(fuzz, min(len(fuzz), 250 if tier == "quick" else len(fuzz)))):
                 jobs.append((rng.randrange(1 << 30), rng.choice(("LP", "LM", "LF", "LC")), f, "fuzz-regression"))
+        # boundary sweep: one representative per detected format (the smallest corpus file of that format, unpacked if it sits in
+        # an archive); every byte of its first H bytes moved by +1 and -1, and the first H2 bytes set to the usual limits - the
+        # off-by-one neighbourhood of every header field of every loader, which random mutation only samples
+        sweep = []
+        if not replay:
+            small = [f for f in V.corpus_files() if os.path.getsize(f) < 300000]
+            ty = V.run([drv["asan+ubsan"]], inp="".join("0 TY %s\n" % f for f in small), env=env, timeout=3000).stdout.split("\n")
+            ty = [l.split(" ", 3) for l in ty if l.startswith("TYPE ")]
+            reps = {}
+            for f, w in zip(small, ty):
+                if w[1] == "0" and (w[3] not in reps or int(w[2]) < reps[w[3]][1]): reps[w[3]] = (f, int(w[2]))
+            H, H2 = (768, 384) if tier == "quick" else (4096, 2048)
+            for fmt_name, (f, size) in sorted(reps.items()):
+                for off in range(min(size, H)):
+                    sweep.append((rng.randrange(1 << 30), "SW:%d+1" % off, f, "sweep+1")); sweep.append((rng.randrange(1 << 30), "SW:%d-1" % off, f, "sweep-1"))
+                for off in range(min(size, H2)):
+                    for v in (0, 0x40, 0x80, 0xff) if tier == "quick" else (0, 0x3f, 0x40, 0x41, 0x7f, 0x80, 0x81, 0xfe, 0xff):
+                        sweep.append((rng.randrange(1 << 30), "SW:%d=%d" % (off, v), f, "sweep-limit"))
+            stats["sweep_formats"] = len(reps); stats["sweep_inputs"] = len(sweep)
         chunks = [jobs[i::14] for i in range(14)] if len(jobs) > 14 else [jobs]
+        schunks = [sweep[i::14] for i in range(14)] if sweep else []
 
         def run_chunk(args):
             name, chunk = args
@@ -56,7 +76,7 @@ def main():
             return name, res
 
         with ThreadPoolExecutor(14) as ex:
-            allres = list(ex.map(run_chunk, [(n, c) for n in drv for c in chunks]))
+            allres = list(ex.map(run_chunk, [(n, c) for n in drv for c in chunks] + [(n, c) for n in (("asan+ubsan",) if tier == "quick" else tuple(drv)) for c in schunks]))
         dumps = []
         for name, res in allres:
             for (js, out, err) in res:
@@ -94,7 +114,8 @@ def main():
     ck.engine_stat("bounds", **stats)
     ck.cov["rule"] = ("corpus modules, their field-mutated / truncated / bit-flipped variants and the fuzzer regression inputs of test-dev/data/f, each through one of the four test entry points and the matching load entry point; every module that loads "
                       "is dumped and then driven through two player cycles under seeded output configurations (6 rates x 5 formats x 3 interpolators, voice limits) with 25-85 calls each of play_frame / play_buffer / set_position / next / prev / set_row / "
-                      "seek_time / restart / stop / channel_mute with hostile arguments; the whole run once under ASan+UBSan (the project's policy: minus shift-base) and once under MemorySanitizer; dumps are judged by the extracted public_wfb and consumers_okb")
+                      "seek_time / restart / stop / channel_mute with hostile arguments; plus a boundary sweep: for one representative of each detected format (unpacked if archived) every byte of the header region moved by +1 / -1 and set to the usual limits, "
+                      "each variant tested, loaded from memory and driven through a fixed history that visits every order with set_position / next / prev / seek / set_row / restart (ASan+UBSan; thorough: MSan too); the whole run once under ASan+UBSan (the project's policy: minus shift-base) and once under MemorySanitizer; dumps are judged by the extracted public_wfb and consumers_okb")
     ck.assumptions += ["memory safety of the C code is established by the theorem only for the modelled table accesses of a well-formed module (and, in C20 / C12 / C15 / C16 / C05, for their own indices); everything else is sanitizer exploration of the inputs generated here, not proof",
                        "MemorySanitizer runs with an uninstrumented libc (interceptors only)"]
     ck.finish()
